@@ -12,7 +12,7 @@ use crate::props::c01::compress_with;
 use crate::scen;
 
 pub fn run(ctx: &mut Ctx) {
-    let big = ctx.tier == Tier::Thorough && gen::chance(1, 50);
+    let big = gen::chance(1, if ctx.tier == crate::harness::Tier::Thorough { 50 } else { 800 });
     let mut spec = scen::gen_compress_spec(true, big);
     spec.metadata = scen::cli_safe_metadata(&spec.metadata);
     let max_len = if big { 3 << 20 } else { 48 * 1024 };
